@@ -358,7 +358,7 @@ func init() {
 		emit("seq:from-string-col", 1, "C:A/1Min/S:"+cols([]string{"S"}, []string{"i4"}), "W:A/1Min/S:"+cols([]string{"S"}, []string{"U16"})+":"+fmt.Sprintf("%d,%s", base, hx(make([]byte, 64))), "Q:A/1Min/S")
 		// F8b: one valid and one mismatching bucket in ONE request; then an unrelated write flushes
 		xa, xt := []string{"X"}, []string{"i4"}
-		emit("seq:F8b-multi", 2, "C:A/1Min/G:"+cols(xa, xt), "C:B/1Min/G:"+cols([]string{"Y"}, xt), "C:C/1Min/G:"+cols(xa, xt),
+		emit("seq:F8b-multi", 1, "C:A/1Min/G:"+cols(xa, xt), "C:B/1Min/G:"+cols([]string{"Y"}, xt), "C:C/1Min/G:"+cols(xa, xt),
 			"M:A/1Min/G,B/1Min/G:"+cols(xa, xt)+":"+rowsFor(xt, 1, 1)+"|"+rowsFor(xt, 1, 2), "Q:A/1Min/G", "Q:B/1Min/G",
 			"W:C/1Min/G:"+cols(xa, xt)+":"+rowsFor(xt, 1, 3), "Q:A/1Min/G", "Q:B/1Min/G")
 		emit("seq:multi-both-valid", 1, "C:A/1Min/G:"+cols(xa, xt), "C:B/1Min/G:"+cols(xa, xt),
@@ -428,7 +428,6 @@ func init() {
 					steps = append(steps, "M:"+key+","+k2+":"+cols(wn, wt)+":"+rowsFor(wt, 1, w)+"|"+rowsFor(wt, 1, w+5))
 					tag = "seq:random:multi"
 					if valid {
-						expect = 2
 						tag = "seq:random:multi-one-valid"
 					}
 				} else {
